@@ -15,6 +15,7 @@ import GlareModel.Core.Footer
 import GlareModel.Core.Layout
 import GlareModel.Core.Plain
 import GlareModel.Core.Proto
+import GlareModel.Core.ExecStack
 
 /-! `gmodel`: line-protocol driver. Reads `case <n> <component> ...` lines on stdin and
 prints `out <n> ...` lines computed by the code-shaped model. -/
@@ -373,6 +374,18 @@ def runLayout (args : List String) : String :=
     s!"v={l.validityWidth} w={l.rowWidth} o={os}"
   | _ => "bad-case"
 
+/-- `case N execstack <num_operators> <b1,b2,..|->`: the calls `ExecutionStack::pop_next` makes under a scripted handler. -/
+def runExecStack (args : List String) : String :=
+  match args with
+  | [n, bs] =>
+    match n.toNat? with
+    | some nops =>
+      let script := if bs == "-" then [] else (bs.splitOn ",").filterMap String.toNat?
+      let t := ExecStack.trace true nops script
+      t.trimAscii.toString
+    | none => "bad-case"
+  | _ => "bad-case"
+
 /-- `case N pqpage <type> <optional 0|1> <numValues> <hex body>`: rows of one v1 PLAIN data page. -/
 def runPqPage (args : List String) : String :=
   match args with
@@ -432,6 +445,7 @@ def step (line : String) : Option String :=
   | "case" :: n :: "tasktrace" :: args => some s!"out {n} {runTaskTrace args}"
   | "case" :: n :: "pqpage" :: args => some s!"out {n} {runPqPage args}"
   | "case" :: n :: "layout" :: args => some s!"out {n} {runLayout args}"
+  | "case" :: n :: "execstack" :: args => some s!"out {n} {runExecStack args}"
   | "case" :: n :: "footer" :: args => some s!"out {n} {runFooter args}"
   | "case" :: n :: "unify" :: args => some s!"out {n} {runUnify args}"
   | "case" :: n :: "tok" :: args => some s!"out {n} {runTok args}"
